@@ -59,7 +59,8 @@ impl Ep {
         match entry {
             // second concretisation: a peer is being checked through the relay (permission + bound channel)
             "turn_udp" => Ok(Ep::Turn(turn::Ep::build(false, variant % 2 == 1).await?)),
-            "turn_tcp" => Ok(Ep::Turn(turn::Ep::build(true, variant % 2 == 1).await?)),
+            // (over TCP the agent forms no pair with the relay candidate, so there is no such state to reach)
+            "turn_tcp" => Ok(Ep::Turn(turn::Ep::build(true, false).await?)),
             "dtls_server" => Ok(Ep::Dtls(dtls::Ep::build(false, false, false).await?)),
             // second concretisation of the pre-handshake phase: the client has been through a HelloVerifyRequest
             // ... and of the mid-handshake phase: the server's largest message is being reassembled from fragments
@@ -244,7 +245,7 @@ async fn one_run(ctx: &Ctx, entry: &str, pre: &[Value], ci: usize, tpl: &str, cl
 }
 
 fn has_modes(entry: &str) -> bool {
-    matches!(entry, "sctp" | "ice_tcp" | "ice_udp" | "turn_udp" | "turn_tcp" | "rtp_transport" | "dtls_client" | "dtls_server" | "pc_rtp")
+    matches!(entry, "sctp" | "ice_tcp" | "ice_udp" | "turn_udp" | "rtp_transport" | "dtls_client" | "dtls_server" | "pc_rtp")
 }
 
 pub async fn run_case(ctx: &Ctx, st: &mut State, ci: usize, c: &Value) -> Value {
